@@ -33,23 +33,139 @@ def parseCost : Sexp → Option Cost
   | _ => none
 
 def parseResRef : Sexp → Option ResRef
-  | .list [.atom "worker", n] => do some (.worker (← n.asStr?))
-  | .list [.atom "select", i] => do some (.select (← i.asNat?))
-  | .list [.atom "cumul", n] => do some (.cumul (← n.asStr?))
+  | .list [.atom "worker", n] => do some (ResRef.worker (← n.asStr?))
+  | .list [.atom "select", i] => do some (ResRef.select (← i.asNat?))
+  | .list [.atom "cumul", n] => do some (ResRef.cumul (← n.asStr?))
   | _ => none
 
-def parseCoreDecl : Sexp → Option CoreDecl
-  | .list [.atom "problem", n, h] => do some (.problem (← n.asStr?) (← asOpt? asInt? h))
+def parseIVar : Sexp → Option IVar
+  | .list [.atom "tstart", n] => do some (.tStart (← n.asStr?))
+  | .list [.atom "tend", n] => do some (.tEnd (← n.asStr?))
+  | .list [.atom "tdur", n] => do some (.tDur (← n.asStr?))
+  | .list [.atom "busys", w, t, m] => do some (.busyS (← w.asStr?) (← t.asStr?) (← m.asBool?))
+  | .list [.atom "busye", w, t, m] => do some (.busyE (← w.asStr?) (← t.asStr?) (← m.asBool?))
+  | .list [.atom "horizon"] => some .horizon
+  | .list [.atom "ind", n] => do some (.ind (← n.asStr?))
+  | .list [.atom "named", n] => do some (.named (← n.asStr?))
+  | _ => none
+
+def parseBVar : Sexp → Option BVar
+  | .list [.atom "sched", n] => do some (.sched (← n.asStr?))
+  | .list [.atom "sel", s, w] => do some (.sel (← s.asNat?) (← w.asStr?))
+  | .list [.atom "applied", c] => do some (.applied (← c.asNat?))
+  | .list [.atom "bnamed", n] => do some (.named (← n.asStr?))
+  | _ => none
+
+mutual
+partial def parseTerm : Sexp → Option Term
+  | .atom s => (s.toInt?).map Term.num
+  | .list [.atom "var", v] => (parseIVar v).map Term.var
+  | .list (.atom "sum" :: l) => do some (.sum (← l.mapM parseTerm))
+  | .list [.atom "+", a, b] => do some (.add (← parseTerm a) (← parseTerm b))
+  | .list [.atom "-", a, b] => do some (.sub (← parseTerm a) (← parseTerm b))
+  | .list [.atom "*", a, b] => do some (.mul (← parseTerm a) (← parseTerm b))
+  | .list [.atom "neg", a] => do some (.neg (← parseTerm a))
+  | .list [.atom "div", a, b] => do some (.div (← parseTerm a) (← parseTerm b))
+  | .list [.atom "mod", a, b] => do some (.mod (← parseTerm a) (← parseTerm b))
+  | .list [.atom "ite", c, a, b] => do some (.ite (← parseFml c) (← parseTerm a) (← parseTerm b))
+  | _ => none
+partial def parseFml : Sexp → Option Fml
+  | .atom "true" => some .tt
+  | .atom "false" => some .ff
+  | .list [.atom "bvar", v] => (parseBVar v).map Fml.bvar
+  | .list [.atom "not", a] => do some (.not (← parseFml a))
+  | .list (.atom "and" :: l) => do some (.and (← l.mapM parseFml))
+  | .list (.atom "or" :: l) => do some (.or (← l.mapM parseFml))
+  | .list [.atom "xor", a, b] => do some (.xor (← parseFml a) (← parseFml b))
+  | .list [.atom "=>", a, b] => do some (.imp (← parseFml a) (← parseFml b))
+  | .list [.atom "if", c, a, b] => do some (.ite (← parseFml c) (← parseFml a) (← parseFml b))
+  | .list [.atom "iff", a, b] => do some (.iff (← parseFml a) (← parseFml b))
+  | .list [.atom "<=", a, b] => do some (.le (← parseTerm a) (← parseTerm b))
+  | .list [.atom "<", a, b] => do some (.lt (← parseTerm a) (← parseTerm b))
+  | .list [.atom ">=", a, b] => do some (.ge (← parseTerm a) (← parseTerm b))
+  | .list [.atom ">", a, b] => do some (.gt (← parseTerm a) (← parseTerm b))
+  | .list [.atom "=", a, b] => do some (.eq (← parseTerm a) (← parseTerm b))
+  | .list [.atom "!=", a, b] => do some (.ne (← parseTerm a) (← parseTerm b))
+  | _ => none
+end
+
+def parseOperand : Sexp → Option Operand
+  | .list [.atom "ref", i] => do some (.ref (← i.asNat?))
+  | .list [.atom "raw", f] => do some (.raw (← parseFml f))
+  | _ => none
+
+def parsePair : Sexp → Option (Int × Int)
+  | .list [a, b] => do some ((← a.asInt?), (← b.asInt?))
+  | _ => none
+
+def parseTriple : Sexp → Option ((Int × Int) × Int)
+  | .list [a, b, c] => do some (((← a.asInt?), (← b.asInt?)), (← c.asInt?))
+  | _ => none
+
+def parseCDecl : Sexp → Option CDecl
+  | .list [.atom "startAt", t, v] => do some (.startAt (← t.asStr?) (← v.asInt?))
+  | .list [.atom "startAfter", t, v, s] => do some (.startAfter (← t.asStr?) (← v.asInt?) (← s.asBool?))
+  | .list [.atom "endAt", t, v] => do some (.endAt (← t.asStr?) (← v.asInt?))
+  | .list [.atom "endBefore", t, v, s] => do some (.endBefore (← t.asStr?) (← v.asInt?) (← s.asBool?))
+  | .list [.atom "precedence", b, a, off, k] => do
+      some (.precedence (← b.asStr?) (← a.asStr?) (← off.asInt?) (← parseOrdKind k))
+  | .list [.atom "startSynced", a, b] => do some (.startSynced (← a.asStr?) (← b.asStr?))
+  | .list [.atom "endSynced", a, b] => do some (.endSynced (← a.asStr?) (← b.asStr?))
+  | .list [.atom "dontOverlap", a, b] => do some (.dontOverlap (← a.asStr?) (← b.asStr?))
+  | .list [.atom "contiguous", ts] => do some (.contiguous (← asList? asStr? ts))
+  | .list [.atom "unorderedGroup", ts, w, len] => do
+      some (.unorderedGroup (← asList? asStr? ts) (← asOpt? parsePair w) (← len.asInt?))
+  | .list [.atom "orderedGroup", ts, w, len, k] => do
+      some (.orderedGroup (← asList? asStr? ts) (← asOpt? parsePair w) (← len.asInt?) (← parseOrdKind k))
+  | .list [.atom "scheduleN", ts, n, ivs, k] => do
+      some (.scheduleN (← asList? asStr? ts) (← n.asInt?) (← asList? parsePair ivs) (← parseCountKind k))
+  | .list [.atom "forceSchedule", t, b] => do some (.forceSchedule (← t.asStr?) (← b.asBool?))
+  | .list [.atom "conditionSchedule", t, c] => do some (.conditionSchedule (← t.asStr?) (← parseFml c))
+  | .list [.atom "dependency", a, b] => do some (.dependency (← a.asStr?) (← b.asStr?))
+  | .list [.atom "forceScheduleN", ts, n, k] => do
+      some (.forceScheduleN (← asList? asStr? ts) (← n.asInt?) (← parseCountKind k))
+  | .list [.atom "fromExpr", f] => do some (.fromExpr (← parseFml f))
+  | .list [.atom "forceApplyN", cs, n, k] => do
+      some (.forceApplyN (← asList? asNat? cs) (← n.asInt?) (← parseCountKind k))
+  | .list [.atom "not", o] => do some (.not_ (← parseOperand o))
+  | .list [.atom "or", os] => do some (.or_ (← asList? parseOperand os))
+  | .list [.atom "and", os] => do some (.and_ (← asList? parseOperand os))
+  | .list [.atom "xor", a, b] => do some (.xor_ (← parseOperand a) (← parseOperand b))
+  | .list [.atom "implies", c, os] => do some (.implies (← parseFml c) (← asList? parseOperand os))
+  | .list [.atom "ifThenElse", c, os1, os2] => do
+      some (.ifThenElse (← parseFml c) (← asList? parseOperand os1) (← asList? parseOperand os2))
+  | .list [.atom "unavailable", r, ivs] => do some (.unavailable (← r.asStr?) (← asList? parsePair ivs))
+  | .list [.atom "workload", r, ivs, k] => do
+      some (.workload (← r.asStr?) (← asList? parseTriple ivs) (← parseCountKind k))
+  | .list [.atom "nonDelay", r] => do some (.nonDelay (← r.asStr?))
+  | .list [.atom "distance", r, d, ivs, m] => do
+      some (.distance (← r.asStr?) (← d.asInt?) (← asOpt? (asList? parsePair) ivs) (← parseCountKind m))
+  | .list [.atom "sameWorkers", a, b] => do some (.sameWorkers (← a.asNat?) (← b.asNat?))
+  | .list [.atom "distinctWorkers", a, b] => do some (.distinctWorkers (← a.asNat?) (← b.asNat?))
+  | .list [.atom "unloadBuffer", t, b, q] => do some (.unloadBuffer (← t.asStr?) (← b.asStr?) (← q.asInt?))
+  | .list [.atom "loadBuffer", t, b, q] => do some (.loadBuffer (← t.asStr?) (← b.asStr?) (← q.asInt?))
+  | .list [.atom "indicatorTarget", i, v] => do some (.indicatorTarget (← i.asNat?) (← v.asInt?))
+  | .list [.atom "indicatorBounds", i, lo, hi] => do
+      some (.indicatorBounds (← i.asNat?) (← asOpt? asInt? lo) (← asOpt? asInt? hi))
+  | _ => none
+
+def parseDecl : Sexp → Option Decl
+  | .list [.atom "problem", n, h] => do some (Decl.problem (← n.asStr?) (← asOpt? asInt? h))
   | .list [.atom "task", n, k, opt, work, rel, due, dl, prio] => do
-      some (.task (← n.asStr?) (← parseTaskKind k) (← opt.asBool?) (← work.asInt?)
+      some (Decl.task (← n.asStr?) (← parseTaskKind k) (← opt.asBool?) (← work.asInt?)
         (← asOpt? asInt? rel) (← asOpt? asInt? due) (← dl.asBool?) (← prio.asInt?))
-  | .list [.atom "worker", n, p, c] => do some (.worker (← n.asStr?) (← p.asInt?) (← parseCost c))
+  | .list [.atom "worker", n, p, c] => do some (Decl.worker (← n.asStr?) (← p.asInt?) (← parseCost c))
   | .list [.atom "cumulative", n, sz, p, c] => do
-      some (.cumulative (← n.asStr?) (← sz.asInt?) (← p.asInt?) (← parseCost c))
+      some (Decl.cumulative (← n.asStr?) (← sz.asInt?) (← p.asInt?) (← parseCost c))
   | .list [.atom "select", n, ws, k, kind] => do
-      some (.select (← asOpt? asStr? n) (← asList? asStr? ws) (← k.asInt?) (← parseCountKind kind))
+      some (Decl.select (← asOpt? asStr? n) (← asList? asStr? ws) (← k.asInt?) (← parseCountKind kind))
   | .list [.atom "require", t, r, dyn, di, eo] => do
-      some (.require (← t.asStr?) (← parseResRef r) (← dyn.asBool?) (← di.asInt?) (← eo.asInt?))
+      some (Decl.require (← t.asStr?) (← parseResRef r) (← dyn.asBool?) (← di.asInt?) (← eo.asInt?))
+  | .list [.atom "constraint", n, opt, c] => do
+      some (Decl.constr (← asOpt? asStr? n) (← opt.asBool?) (← parseCDecl c))
+  | .list [.atom "buffer", n, conc, i, f, lb, ub] => do
+      some (Decl.buffer (← n.asStr?) (← conc.asBool?) (← asOpt? asInt? i) (← asOpt? asInt? f)
+        (← asOpt? asInt? lb) (← asOpt? asInt? ub))
   | _ => none
 
 end PS
